@@ -182,6 +182,7 @@ func (s *Sim) CheckReloaded() {
 		if got, want := ch.OweCommitment(), m.Owes(x); got != want {
 			r.Fail("pending-updates", "%s after reload: OweCommitment=%v, model says %v", nm(x), got, want)
 		}
+		s.checkFwdPkgs(x)
 		next, err := ch.NextLocalHtlcIndex()
 		if err != nil {
 			r.Fail("reload-error", "%s.NextLocalHtlcIndex: %v", nm(x), err)
@@ -190,6 +191,57 @@ func (s *Sim) CheckReloaded() {
 			r.Fail("htlc-index", "%s after reload: next local HTLC index %d, model expects %d", nm(x), next, want)
 		}
 	}
+}
+
+// checkFwdPkgs: the forwarding packages on disk after a reload are exactly
+// those the node wrote when it processed revocations, with the same adds and
+// settles/fails, and an add is marked acked iff a removal issued with its
+// reference has been covered by one of our signatures.
+func (s *Sim) checkFwdPkgs(x int) {
+	r := s.R
+	pkgs, err := s.P[x].Chan.LoadFwdPkgs()
+	if err != nil {
+		r.Fail("reload-error", "%s.LoadFwdPkgs: %v", nm(x), err)
+	}
+	seen := map[uint64]bool{}
+	signed := s.M.lastSigned(x).N[x]
+	for _, p := range pkgs {
+		rec, ok := s.Fwd[x][p.Height]
+		if !ok {
+			r.Fail("fwdpkg", "%s after reload: forwarding package at height %d that the running node never wrote", nm(x), p.Height)
+		}
+		seen[p.Height] = true
+		if len(p.Adds) != len(rec.Adds) || len(p.SettleFails) != len(rec.SettleFails) {
+			r.Fail("fwdpkg", "%s after reload: forwarding package %d has %d adds / %d settle-fails, the node wrote %d / %d", nm(x), p.Height,
+				len(p.Adds), len(p.SettleFails), len(rec.Adds), len(rec.SettleFails))
+		}
+		for i := range p.Adds {
+			if !bytes.Equal(wireBytes(p.Adds[i].UpdateMsg), rec.Adds[i]) {
+				r.Fail("fwdpkg", "%s after reload: add %d of forwarding package %d differs from what was written", nm(x), i, p.Height)
+			}
+			want := false
+			for j := 0; j < signed && j < len(s.M.S[x].Log); j++ {
+				u := s.M.S[x].Log[j]
+				if u.HasSrc && u.SrcH == p.Height && int(u.SrcI) == i {
+					want = true
+				}
+			}
+			if got := p.AckFilter.Contains(uint16(i)); got != want {
+				r.Fail("fwdpkg-ack", "%s after reload: add %d of forwarding package %d acked=%v, but a signed settle/fail for it exists=%v", nm(x), i, p.Height, got, want)
+			}
+		}
+		for i := range p.SettleFails {
+			if !bytes.Equal(wireBytes(p.SettleFails[i].UpdateMsg), rec.SettleFails[i]) {
+				r.Fail("fwdpkg", "%s after reload: settle/fail %d of forwarding package %d differs from what was written", nm(x), i, p.Height)
+			}
+		}
+	}
+	for h := range s.Fwd[x] {
+		if !seen[h] {
+			r.Fail("fwdpkg", "%s after reload: forwarding package of height %d is gone", nm(x), h)
+		}
+	}
+	r.Count("fwdpkg_checks")
 }
 
 // Resync exchanges channel_reestablish and checks the retransmissions.
@@ -385,6 +437,10 @@ func (s *Sim) Fork() *Sim {
 		f.Refs[x] = map[uint64]channeldb.AddRef{}
 		for k, v := range s.Refs[x] {
 			f.Refs[x][k] = v
+		}
+		f.Fwd[x] = map[uint64]*FwdRec{}
+		for k, v := range s.Fwd[x] {
+			f.Fwd[x][k] = v
 		}
 		f.RevMsgs[x] = map[uint64][]byte{}
 		for k, v := range s.RevMsgs[x] {
